@@ -3377,7 +3377,13 @@ class SFTPClientFile:
         """Return the offset of the end of the file"""
 
         attrs = await self.stat()
-        return attrs.size or 0
+
+        # The size is optional in file attributes. Don't take a file of
+        # unknown size to be empty.
+        if attrs.size is None:
+            raise SFTPFailure('File size not available')
+
+        return attrs.size
 
     async def request_ranges(self, offset: int, length: int) -> \
             AsyncIterator[Tuple[int, int]]:
@@ -4048,8 +4054,13 @@ class SFTPClient:
                 if remote_only and not self.supports_remote_copy:
                     raise SFTPOpUnsupported('Remote copy not supported')
 
+                # The size is optional in file attributes. Don't take a
+                # file of unknown size to be empty.
+                if srcattrs.size is None:
+                    raise SFTPFailure('File size not available')
+
                 await _SFTPFileCopier(block_size, max_requests,
-                                      srcattrs.size or 0, sparse,
+                                      srcattrs.size, sparse,
                                       srcfs, dstfs, srcpath, dstpath,
                                       progress_handler).run()
 
